@@ -17,6 +17,10 @@ RULES = {
                   'equals k! * e_{m-1-k}({x0 - x_u}, u != v) / prod_{u != v}(x_v - x_u), the k-th derivative at x0 of the Lagrange basis '
                   'polynomial of node v (rational function identity), for every ordering hypothesis of the nodes tried',
     'R-ROW': 'fd_weights(x, x0, n) is row n of fd_weights_all(x, x0, n)',
+    'R-MEMO': 'a table filled while fd_weights / fd_weights_all run is keyed by the arguments themselves: a key computed with '
+              'floating-point arithmetic on them (x - x0, ratios) is not injective in the arguments - node sets whose offsets round to '
+              'the same numbers share the key - so a stored row could be returned for other nodes; every dict store of the abstract '
+              'runs is examined (none on a memo-free implementation)',
 }
 
 
@@ -81,6 +85,7 @@ def generic(ctx, fb, where, m, rank, xs, c, row_rule):
 
     def run_one(entry, args_of, rule, construct, wh, label, key, rows, nn):
         records = []
+        stores = []
 
         def body(oracle):
             models = Models()
@@ -88,10 +93,12 @@ def generic(ctx, fb, where, m, rank, xs, c, row_rule):
             models.bind(I)
             ndarr.ORDER_RANK.clear()
             ndarr.ORDER_RANK.update({'x%d' % k: rank[k] for k in range(m)})
+            I.on_dict_store = lambda d, key, val: stores.append((key, I.where()))
             try:
                 return I.get_global('fornberg', entry)(*args_of())
             finally:
                 ndarr.ORDER_RANK.clear()
+                I.on_dict_store = None
         try:
             with budget(60, '%s m=%d' % (entry, m)):
                 paths = approx_paths(body, records=records)
@@ -108,6 +115,15 @@ def generic(ctx, fb, where, m, rank, xs, c, row_rule):
                     problems = judge(rep, W, xs, c, nn, m, wh, lab, rule, rows)
                     rep.check(not problems, rule, construct, wh, {'nodes': m, 'n': nn, 'mismatches': problems[:3]},
                               'k-th derivative at x0 of the Lagrange basis polynomials', lab, key=key)
+                lossy = []
+                for k_, where_k in stores:
+                    for part in (k_ if isinstance(k_, tuple) else (k_,)):
+                        if isinstance(part, Rat) or (isinstance(part, Poly) and len(part.t) > 1 and
+                                                     any(a.startswith('x') or a == 'c' for a in part.atoms())):
+                            lossy.append('%s: key component %s' % (where_k, repr(part)[:60]))
+                            break
+                rep.check(not lossy, 'R-MEMO', construct, wh, {'dict_stores': len(stores), 'keys_from_rounded_arithmetic': lossy[:2]},
+                          'no table keyed by rounded arithmetic on the arguments', label, key='memo')
         except AnalysisError as exc:
             rep.undecided(rule, construct, exc, label)
     run_one('fd_weights_all', lambda: (Arr((m,), list(xs)), c, n), 'R-LAGRANGE', 'fornberg._fd_weights_all', where, label0,
@@ -153,7 +169,7 @@ def run(ctx):
         'thorough 5) for every n < len(x) and the result is compared with the closed form of the definition. Code that compares or '
         'sorts nodes is interpreted under explicit ordering hypotheses (identity, reversed, rotated, interleaved).')
     for rid, text in RULES.items():
-        rep.rule(rid, text, {'R-LAGRANGE': 8, 'R-ROW': 3}[rid])
+        rep.rule(rid, text, {'R-LAGRANGE': 8, 'R-ROW': 3, 'R-MEMO': 3}[rid])
     fb = ctx.repo.module('fornberg')
     where = fb.where(ctx.repo.func('fornberg', '_fd_weights_all')) if '_fd_weights_all' in fb.funcs else fb.relpath
     sizes = (2, 3, 4) if ctx.tier == 'quick' else (2, 3, 4, 5)
